@@ -54,7 +54,7 @@ def run_tlc(
     else:
         cfg_path = spec_dir / (cfg or module + ".cfg")
     cmd = [
-        "java", f"-Xmx{heap}", "-XX:+UseParallelGC", "-cp", JAR, "tlc2.TLC",
+        "java", f"-Xmx{heap}", "-XX:+UseParallelGC", f"-Djava.io.tmpdir={meta}", "-cp", JAR, "tlc2.TLC",
         "-workers", str(workers), "-metadir", str(meta / "states"), "-noGenerateSpecTE",
         "-config", str(cfg_path),
     ]
